@@ -234,6 +234,8 @@ class Builder:
         # Storing commands before an conditional statement
         self._pre_context_commands: Dict[int, List[T_Cmd]] = {}
         self._pre_context_registers: Dict[int, List[operand.Register]] = {}
+        # Qubit objects of EPR contexts that are currently open (by results array)
+        self._epr_context_qubits: Dict[int, List[Qubit]] = {}
 
         self._label_mgr = LabelManager()
 
@@ -557,6 +559,9 @@ class Builder:
         # NetQASM array with IDs for the generated qubits.
         virtual_qubit_ids = [q.qubit_id for q in qubit_futures]
         qubit_ids_array = self.alloc_array(init_values=virtual_qubit_ids)  # type: ignore
+        # The pairs are only handled inside the context (through the FutureQubit):
+        # their virtual IDs are given back when the context is exited.
+        self._epr_context_qubits[ent_results_array.address] = qubit_futures
 
         # Construct and add the NetQASM instructions
         if role == EPRRole.CREATE:
@@ -604,6 +609,8 @@ class Builder:
             loop_register=loop_register,
         )
         self._mem_mgr.remove_active_register(loop_register)
+        for q in self._epr_context_qubits.pop(ent_results_array.address, []):
+            q.active = False
 
     def _assert_epr_args(
         self,
